@@ -1,7 +1,7 @@
 (* C19 -- Configuration resolves with documented precedence and works from the environment. *)
 From Deep Require Import Base Config ConfigProofs.
-From DeepGen Require Import PTruth PFrames.
-From Deep Require Import TieTruth TieFrames.
+From DeepGen Require Import PTruth PFrames PResolve.
+From Deep Require Import TieTruth TieFrames TieResolve.
 
 Theorem C19_precedence :
   forall own custom dflt env,
@@ -72,3 +72,23 @@ Print Assumptions C19_the_code_app_frame_is_the_model.
 Theorem C19_the_code_truth_words_are_the_model : forall s, gen_str2bool s = str2bool s.
 Proof. exact tie_str2bool. Qed.
 Print Assumptions C19_the_code_truth_words_are_the_model.
+
+(* ---- tie by translation: ConfigService.__getattribute__ as it is in /repo/src NOW (gen/PResolve.v) resolves a key exactly as the
+   model does, whatever the four sources hold - so the precedence theorems above are statements about the code *)
+Theorem C19_the_code_resolves_as_the_model :
+  forall own custom dflt env, code_resolve own custom dflt env = resolve own custom dflt env.
+Proof. exact tie_resolve. Qed.
+Print Assumptions C19_the_code_resolves_as_the_model.
+
+(* ... read off the translated code: code wins; then the environment-backed default (a function is called); then the DEEP_ variable,
+   as text; else nothing *)
+Theorem C19_the_code_precedence :
+  (forall v dflt env, is_none v = false -> code_resolve None (Some v) dflt env = call v) /\
+  (forall d env, code_resolve None None (Some d) env = call d) /\
+  (forall s, code_resolve None None None (Some s) = VText s) /\
+  code_resolve None None None None = VNoneV.
+Proof.
+  split; [exact code_custom_wins|]. split; [exact code_default_before_environment|].
+  split; [exact code_environment_is_text|exact code_absent].
+Qed.
+Print Assumptions C19_the_code_precedence.
